@@ -40,18 +40,23 @@ def c01(rec):
 
 
 def _true_counts(aft):
-    """(node id -> aff -> count) for servers and buckets, recounted from the leaves."""
+    """(node id -> aff -> count) for servers and buckets, recounted from the leaves. An instance counts on the server
+    that lists it and on the server it names itself (the two views agree when C01 holds; when they do not, an instance
+    that says it runs on a server is running there for the purposes of its affinity limits)."""
     apps, servers, buckets = aft['apps'], aft['servers'], aft['buckets']
     cnt = {}
+    on = {sid: [a for a in s['apps'] if a in apps] for sid, s in servers.items()}
+    for a, ap in apps.items():
+        sid = ap.get('server')
+        if sid is not None and sid in on and a not in on[sid]:
+            on[sid].append(a)
     for sid, s in servers.items():
-        for a in s['apps']:
-            if a not in apps:
-                continue
+        for a in on[sid]:
             aff = apps[a]['aff']
             for node in [sid] + s['chain']:
                 cnt.setdefault(node, {}).setdefault(aff, 0)
                 cnt[node][aff] += 1
-    return cnt
+    return cnt, on
 
 
 def c04(rec, state=None):
@@ -64,7 +69,7 @@ def c04(rec, state=None):
             state.setdefault('moved_apps', {})[sid] = set(rec['before']['servers'][sid]['apps'])
     aft = rec['after']
     apps, servers, buckets = aft['apps'], aft['servers'], aft['buckets']
-    cnt = _true_counts(aft)
+    cnt, on = _true_counts(aft)
     for node in list(servers) + list(buckets):
         stored = (servers[node] if node in servers else buckets[node])['counters']
         true = {k: v for k, v in cnt.get(node, {}).items() if v}
@@ -73,9 +78,7 @@ def c04(rec, state=None):
     direct = {a: site for a, _s, site in rec['puts'] if site != 'put'}
     reported = set()
     for sid, s in servers.items():
-        for a in s['apps']:
-            if a not in apps:
-                continue
+        for a in on[sid]:
             ap = apps[a]
             for node in [sid] + s['chain']:
                 level = 0 if node in servers else buckets[node]['level']
@@ -84,7 +87,7 @@ def c04(rec, state=None):
                     continue
                 reported.add((node, ap['aff']))
                 under = [b for s2id, s2 in servers.items() if node == s2id or node in s2['chain']
-                         for b in s2['apps'] if b in apps and apps[b]['aff'] == ap['aff']]
+                         for b in on[s2id] if apps[b]['aff'] == ap['aff']]
                 sites = sorted({direct[b] for b in under if b in direct})
                 if sites:
                     tainted.add((node, ap['aff']))
